@@ -4,7 +4,7 @@ from npstructures import RaggedArray
 exec(open('c04.py').read().split("buckets = collections")[0])
 random.seed(5); rng=np.random.default_rng(5)
 buckets = collections.defaultdict(list)
-for it in range(60000):
+for it in range(int(__import__("os").environ.get("RECON_N", 60000))):
     lens = rand_lengths(); n=sum(lens)
     d1 = random.choice(dts); d2=random.choice(dts)
     a = rand_data(n,d1); ra = RaggedArray(a.copy(), lens)
